@@ -365,11 +365,14 @@ Proof.
   destruct e as [t k|t order|t|t|t order|t cl order|]; cbn [step] in H.
   - destruct (get_pc (pcs s) t); try discriminate.
     destruct (take_idle k (idle s)); [injection H as <-; left; apply proceed_books|].
-    destruct (connect_must_wait _); injection H as <-; left; [split; reflexivity|apply proceed_books].
+    destruct (connect_must_wait _); [|injection H as <-; left; apply proceed_books].
+    destruct (refuse_wait s); injection H as <-; left; split; reflexivity.
   - destruct (get_pc (pcs s) t) as [| k f | | | | |]; try discriminate. destruct f; try discriminate.
-    + destruct (wait_slot_found _); injection H as <-; left; [|split; reflexivity].
-      destruct (proceed_books c (with_woken s (filter (fun x => negb (x =? t)) (woken s))) t k) as (A & B).
-      split; assumption.
+    + destruct (wait_slot_found _).
+      * injection H as <-. left.
+        destruct (proceed_books c (with_woken s (filter (fun x => negb (x =? t)) (woken s))) t k) as (A & B).
+        split; assumption.
+      * destruct (refuse_wait _); injection H as <-; left; split; reflexivity.
     + injection H as <-. left. split; reflexivity.
     + destruct (release_waiter c _ order) as [s2|] eqn:Er; [|discriminate]. injection H as <-. left.
       apply release_waiter_books in Er. exact Er.
@@ -406,10 +409,11 @@ Proof.
       assert (P : conn_inv (proceed c s t k)).
       { split; [intros _; apply proceed_fresh; assumption|]. rewrite proceed_closed, Hc. discriminate. }
       destruct (take_idle k (idle s)); [injection H as <-; exact P|].
-      destruct (connect_must_wait _); injection H as <-; [|exact P].
-      split; [|cbn; rewrite Hc; discriminate]. intros _.
-      eapply fresh_same_books; [| | | | |exact I1]; try reflexivity.
-      intros t' Ho. cbn [with_pc with_waiters pcs] in *. apply set_pc_nonowner_back; [apply not_owner_waiting|exact Ho].
+      destruct (connect_must_wait _); [|injection H as <-; exact P].
+      destruct (refuse_wait s); injection H as <-; (split; [|cbn; rewrite Hc; discriminate]); intros _;
+        (eapply fresh_same_books; [| | | | |exact I1]; try reflexivity;
+         intros t' Ho; cbn [with_pc with_waiters pcs] in *;
+         apply set_pc_nonowner_back; [first [apply not_owner_waiting|apply not_owner_failed]|exact Ho]).
     + (* EResume *)
       destruct (get_pc (pcs s) t) as [| k f | | | | |] eqn:Ep; try discriminate.
       assert (Hn : ~ is_owner_pc (get_pc (pcs s) t)) by (rewrite Ep; apply not_owner_waiting).
@@ -422,12 +426,13 @@ Proof.
           - apply NoDup_filter. exact E. }
         assert (O1 : owned c s1).
         { eapply (owned_same c s); [reflexivity|reflexivity|reflexivity|intros; reflexivity|exact O]. }
-        destruct (wait_slot_found _); injection H as <-.
-        -- split; [intros _; apply proceed_fresh; assumption|]. rewrite proceed_closed. cbn. rewrite Hc. discriminate.
-        -- split; [|cbn; rewrite Hc; discriminate]. intros _.
-           eapply fresh_same_books; [| | | | |exact I1]; try reflexivity.
-           intros t' Ho. cbn [with_pc with_waiters with_woken pcs] in *.
-           apply set_pc_nonowner_back; [apply not_owner_waiting|exact Ho].
+        destruct (wait_slot_found _).
+        -- injection H as <-.
+           split; [intros _; apply proceed_fresh; assumption|]. rewrite proceed_closed. cbn. rewrite Hc. discriminate.
+        -- destruct (refuse_wait s1); injection H as <-; (split; [|cbn; rewrite Hc; discriminate]); intros _;
+             (eapply fresh_same_books; [| | | | |exact I1]; try reflexivity;
+              intros t' Ho; cbn [with_pc with_waiters with_woken pcs] in *;
+              apply set_pc_nonowner_back; [first [apply not_owner_waiting|apply not_owner_failed]|exact Ho]).
       * injection H as <-. split; [|cbn; rewrite Hc; discriminate]. intros _.
         eapply fresh_same_books; [| | | | |exact I1]; try reflexivity.
         intros t' Ho. cbn [with_pc with_waiters pcs] in *.
